@@ -613,14 +613,31 @@ DataView dataSlice(const DataArray &array, const std::vector<double> &start, con
     NDSize count(my_start.size(), 1), offset(my_start.size(), 0);
     for (size_t i = 0; i < my_start.size(); i++) {
         Dimension dim = array.getDimension(i+1);
+        // a filled-in start or end is a coordinate in the unit of the dimension while the given one is in the caller's
+        // unit: bring the given one into the unit of the dimension (the same scaling positionToIndex would apply)
+        std::string unit_i = my_units[i];
+        DimensionType dim_type = dim.dimensionType();
+        if ((i < start.size()) != (i < end.size()) && i < units.size() &&
+            (dim_type == DimensionType::Sample || dim_type == DimensionType::Range)) {
+            std::string dim_unit = getDimensionUnit(dim);
+            if (unit_i != "none" && dim_unit != "none" && unit_i != dim_unit && util::isScalable(unit_i, dim_unit)) {
+                double scaling = util::getSIScaling(unit_i, dim_unit);
+                if (i < start.size()) {
+                    my_start[i] *= scaling;
+                } else {
+                    my_end[i] *= scaling;
+                }
+                unit_i = dim_unit;
+            }
+        }
         if (my_start[i] > my_end[i]) {
             throw std::invalid_argument("Start position must not be larger than end position.");
         }
         // a dimension without a given end is filled in with its last coordinate, which has to be included
         RangeMatch dim_match = i < end.size() ? match : RangeMatch::Inclusive;
-        std::vector<optional<std::pair<ndsize_t, ndsize_t>>> indices = positionToIndex({my_start[i]}, {my_end[i]}, {my_units[i]}, dim_match, dim);
+        std::vector<optional<std::pair<ndsize_t, ndsize_t>>> indices = positionToIndex({my_start[i]}, {my_end[i]}, {unit_i}, dim_match, dim);
         if (!indices[0]) {
-            optional<ndsize_t> ofst = positionToIndex(my_start[i], my_units[i], PositionMatch::GreaterOrEqual, dim);
+            optional<ndsize_t> ofst = positionToIndex(my_start[i], unit_i, PositionMatch::GreaterOrEqual, dim);
             if (my_end[i] != my_start[i] || !ofst) {
                 throw nix::OutOfBounds("util::offsetAndCount:An invalid range was encountered!");
             }
